@@ -82,6 +82,7 @@ class Verifier(QuantMixin, LoopMixin, ExprMixin, CallMixin, StmtMixin, BuiltinsM
         self.hint_classobj = {}
         self.depth = 0
         self.quant_reset()
+        self.loop_entry = []
         self.orc_spec = {}
         self.norm_of = {}
         self.in_norm_fact = False
@@ -98,15 +99,15 @@ class Verifier(QuantMixin, LoopMixin, ExprMixin, CallMixin, StmtMixin, BuiltinsM
             raise Unsupported(f'contract refers to unknown class {q}')
         return c
 
-    def type_formula(self, v, spec: str):
+    def type_formula(self, v, spec: str, hint: bool = True):
         """z3 Bool stating that Val v has the given type spec (also registers class hints when assumed)"""
         spec = spec.strip()
         if spec == 'any':
             return z3.BoolVal(True)
         if spec.startswith('opt:'):
-            return z3.Or(Val.is_none(v), self.type_formula(v, spec[4:]))
+            return z3.Or(Val.is_none(v), self.type_formula(v, spec[4:], hint=False))
         if '|' in spec:
-            return z3.Or(*[self.type_formula(v, s) for s in spec.split('|')])
+            return z3.Or(*[self.type_formula(v, s, hint=False) for s in spec.split('|')])
         if spec == 'json':
             L, D = builtin_class('list'), builtin_class('dict')
             self.use_class(L)
@@ -115,8 +116,6 @@ class Verifier(QuantMixin, LoopMixin, ExprMixin, CallMixin, StmtMixin, BuiltinsM
             return z3.And(smt.isjson(v),
                           z3.Or(Val.is_none(v), Val.is_bool(v), Val.is_int(v), Val.is_flt(v), Val.is_str(v),
                                 z3.And(Val.is_ref(v), Val.r(v) >= 0, z3.Or(cid == L.cid, cid == D.cid))))
-        if spec in ('str', 'int', 'bool', 'none'):
-            self.kind_hint_pending = (smt.simp(v).get_id(), spec)
         if spec == 'str':
             return Val.is_str(v)
         if spec == 'int':
@@ -141,16 +140,19 @@ class Verifier(QuantMixin, LoopMixin, ExprMixin, CallMixin, StmtMixin, BuiltinsM
             spec = '=UserObject'
         if spec.startswith('type<='):
             K = self.resolve_class(spec[6:])
-            self.hint_classobj[smt.simp(v).get_id()] = K
+            if hint:
+                self.hint_classobj[smt.simp(v).get_id()] = K
             return z3.And(Val.is_ref(v), Val.r(v) < 0, self.sub_term(Val.r(v), K), self.sub_chain(Val.r(v), K))
         exact = spec.startswith('=')
         K = self.resolve_class(spec[1:] if exact else spec)
         self.use_class(K)
         if exact:
             t = z3.And(Val.is_ref(v), Val.r(v) >= 0, smt.cls_of(Val.r(v)) == K.cid)
-            self.known_cls[smt.simp(v).get_id()] = K
+            if hint:
+                self.known_cls[smt.simp(v).get_id()] = K
             return t
-        self.hint_cls.setdefault(smt.simp(v).get_id(), K)
+        if hint:
+            self.hint_cls.setdefault(smt.simp(v).get_id(), K)
         cid = smt.cls_of(Val.r(v))
         return z3.And(Val.is_ref(v), Val.r(v) >= 0, self.sub_term(cid, K), self.sub_chain(cid, K))
 
@@ -405,6 +407,53 @@ class Verifier(QuantMixin, LoopMixin, ExprMixin, CallMixin, StmtMixin, BuiltinsM
         self.assume(enc(v))          # the lemma speaks about JSON-encodable payloads
         return self.norm_val(v)
 
+    def prim_iter_source(self, e, fr):
+        it = self.ev(e.args[0], fr)
+        return self.read_data_attr(it, builtin_class('iterator'), '$src')
+
+    def prim_iter_pos(self, e, fr):
+        it = self.ev(e.args[0], fr)
+        return self.read_data_attr(it, builtin_class('iterator'), '$pos')
+
+    def prim_exc_listed(self, e, fr):
+        """exc_listed(classes, exc): exc is an instance of one of the classes in the collection (the meaning
+        of `except tuple(classes)`); uninterpreted, False for an empty / missing collection"""
+        xs = self.ev(e.args[0], fr)
+        exc = self.ev(e.args[1], fr)
+        return self.to_val_bool(self.exc_listed_term(xs, exc))
+
+    def exc_listed_term(self, xs, exc):
+        f = z3.Function('uf_exc_listed', Val, smt.I, z3.BoolSort())
+        nonempty = self.truthy(xs)
+        return smt.simp(z3.And(nonempty, f(xs, smt.cls_of(Val.r(exc)))))
+
+    def exc_matches(self, exc, type_expr, fr):
+        if isinstance(type_expr, ast.Call) and isinstance(type_expr.func, ast.Name) and type_expr.func.id == 'tuple' \
+                and len(type_expr.args) == 1:
+            # except tuple(<collection of exception classes>)
+            arg = type_expr.args[0]
+            if isinstance(arg, ast.BoolOp) and isinstance(arg.op, ast.Or) and len(arg.values) == 2 \
+                    and isinstance(arg.values[1], (ast.Dict, ast.Tuple, ast.List, ast.Set)) \
+                    and not getattr(arg.values[1], 'keys', getattr(arg.values[1], 'elts', [])):
+                xs = self.ev(arg.values[0], fr)       # `xs or {}`: an empty fallback matches nothing
+            else:
+                xs = self.ev(arg, fr)
+            return self.exc_listed_term(xs, exc)
+        return super().exc_matches(exc, type_expr, fr)
+
+    def bi_time_sleep(self, args, kwargs):
+        """assumed: time.sleep / asyncio.sleep only pause; recorded as a ghost event ('sleep', (delay,))"""
+        self.record_event('sleep', smt.NONE, self.mk_tuple(list(args)), self.mk_dict([]), 'ret', smt.NONE)
+        return smt.NONE
+
+    bi_asyncio_sleep = bi_time_sleep
+
+    def make_iterator(self, src, pos=None):
+        it = self.alloc(builtin_class('iterator'))
+        self.set_attr_raw(it, '$src', src)
+        self.set_attr_raw(it, '$pos', pos if pos is not None else smt.mk_int(0))
+        return it
+
     def prim_uf(self, e, fr):
         """uf('name', a, b, ...): uninterpreted spec predicate over values (a dependency's semantics)"""
         name = ast.literal_eval(e.args[0])
@@ -417,7 +466,16 @@ class Verifier(QuantMixin, LoopMixin, ExprMixin, CallMixin, StmtMixin, BuiltinsM
         name = ast.literal_eval(e.args[0])
         args = [self.ev(a, fr) for a in e.args[1:]]
         f = z3.Function(f'ufv_{name}', *([Val] * len(args)), Val)
-        return f(*args)
+        res = f(*args)
+        self.mark_external(res)
+        return res
+
+    def mark_external(self, res) -> None:
+        """a value produced outside the analysed code (spec function, user callable): never one of the
+        objects the analysed call allocates itself"""
+        self._add_axiom(z3.And(res != smt.ABSENT, z3.Implies(Val.is_ref(res), Val.r(res) < smt.FRESH_BASE)))
+        self.old_terms.add(smt.simp(res).get_id())
+        self.bound_ref(res)
 
     # ---- ghost call trace: parallel arrays indexed by event number (DESIGN 3.2 "ghost state")
     TRACE_FIELDS = ('kind', 'callee', 'args', 'kwargs', 'outcome', 'value')
@@ -569,8 +627,7 @@ class Verifier(QuantMixin, LoopMixin, ExprMixin, CallMixin, StmtMixin, BuiltinsM
         k = self.choose([z3.BoolVal(True)] * (1 + len(raises))) if raises else 0
         if k == 0:
             res = self.fresh('orc')
-            self.bound_ref(res)
-            self._add_axiom(res != smt.ABSENT)
+            self.mark_external(res)
             self.assume_type(res, spec.get('returns', 'any'))
             rinv = spec.get('returned_invariant')
             if rinv:
